@@ -15,8 +15,8 @@ PROPERTY = "C07"
 LEVEL = "model_checking"
 
 SHAPES = ["sum", "weighted", "zero", "cancel", "nested", "scaled", "dd", "nn", "three"]
-POINTS = ["x0", "x1", "x0c", "cancel", "combo", "last"]
-OPS_FULL = ["oracle", "gradient", "value", "call", "stat", "fixed", "prox", "els", "iprox", "epssub"]
+POINTS = ["x0", "x1", "x0c", "cancel", "combo", "combo_rev", "last"]
+OPS_FULL = ["oracle", "gradient", "value", "call", "stat", "fixed", "prox", "els", "iprox", "epssub", "bprox"]
 OPS_RED = ["oracle", "value", "stat", "prox"]
 TOL = Fraction(1, 10 ** 12)
 
@@ -63,7 +63,8 @@ class World(object):
         x0 = p.set_initial_point()
         x1 = p.set_initial_point()
         # "x0c" and "cancel" denote x0 through other objects: a scaled copy, and a subtraction in which a leaf cancels exactly
-        self.points = {"x0": x0, "x1": x1, "x0c": 1 * x0, "cancel": x1 - (x1 - x0), "combo": x0 - 0.5 * x1}
+        self.points = {"x0": x0, "x1": x1, "x0c": 1 * x0, "cancel": x1 - (x1 - x0), "combo": x0 - 0.5 * x1,
+                       "combo_rev": -0.5 * x1 + x0}       # the same point as "combo", its leaves introduced in the other order
         self.returned = {}     # (fname, frozen point decomposition) -> list of ('g'|'v', canonical)
         self.declared_stationary = []   # (fname, point object)
         self.log = []
@@ -80,6 +81,12 @@ class World(object):
 
     def enabled(self, pname):
         return pname != "last" or "last" in self.points
+
+    def op_enabled(self, op):
+        # a mirror step whose mirror map is the sum and whose minimised function is one of its terms (they share a leaf);
+        # the sum as its own mirror map is a contradictory declaration, not a query
+        # (likewise when the sum reduces to a multiple of that single term: zero / cancelling weights, 3 * (f / 3))
+        return not (op[1] == "bprox" and (op[0] == "F" or set(self.weights) == {op[0]}))
 
     def apply(self, op):
         from PEPit.primitive_steps import proximal_step
@@ -119,6 +126,12 @@ class World(object):
             self.points["last"] = x
             self.note(fname, x, gx, fx)
             self.note(fname, w_, v_, fw)
+        elif name == "bprox":
+            from PEPit.primitive_steps import bregman_proximal_step
+            x, sx, hx, gx, fx = bregman_proximal_step(pt, self.F, f, 1)
+            self.points["last"] = x
+            self.note(fname, x, gx, fx)
+            self.note("F", x, sx, hx)
         elif name == "epssub":
             from PEPit.primitive_steps import epsilon_subgradient_step
             x, g0, f0, _ = epsilon_subgradient_step(pt, f, 0.5)
@@ -149,7 +162,7 @@ def judge(shape, hist):
     w = World(shape)
     probs = []
     for op in hist:
-        if not w.enabled(op[2]):
+        if not w.enabled(op[2]) or not w.op_enabled(op):
             return None, "disabled", None
         try:
             w.apply(tuple(op))
@@ -228,6 +241,62 @@ def judge(shape, hist):
     return probs, label, canon
 
 
+# ---- the `reuse_gradient` declaration of every shipped class ------------------------------------------------------------
+# classes whose members are single-valued by definition (documented: the argument is ignored, the gradient is always reused)
+SINGLE_VALUED = {"SmoothFunction", "SmoothConvexFunction", "SmoothStronglyConvexFunction", "SmoothStronglyConvexQuadraticFunction",
+                 "SmoothConvexLipschitzFunction", "BlockSmoothConvexFunction", "CocoerciveOperator", "CocoerciveStronglyMonotoneOperator",
+                 "LipschitzOperator", "LipschitzStronglyMonotoneOperator", "NonexpansiveOperator", "LinearOperator",
+                 "SymmetricLinearOperator", "SkewSymmetricLinearOperator"}
+DEFAULT_REUSE = {"NegativelyComonotoneOperator"}      # documented default True, but the argument is honoured
+
+
+def judge_flag(cls, flag, route):
+    """flag in (True, False, None = default); route: how the point is queried twice."""
+    from PEPit import PEP, Point
+    from mc import models
+    probs = []
+    p = PEP()
+    kw = dict(models.CLASSES[cls]["params"][0])
+    if cls == "BlockSmoothConvexFunction":
+        kw["partition"] = p.declare_block_partition(d=len(kw["L"]))
+    if flag is not None:
+        kw["reuse_gradient"] = flag
+    f = p.declare_function(models.get_class(cls), **kw)
+    x = Point()
+    y = 1 * x                      # a second object with the same decomposition
+    if route == "gradient":
+        g1, g2 = f.gradient(x), f.gradient(x)
+        v1 = v2 = None
+    elif route == "oracle":
+        (g1, v1), (g2, v2) = f.oracle(x), f.oracle(x)
+    elif route == "copy":
+        (g1, v1), (g2, v2) = f.oracle(x), f.oracle(y)
+    else:
+        F = 2 * f
+        g1, v1 = f.oracle(x)
+        G2, V2 = F.oracle(x)
+        g2, v2 = G2 / 2, V2 / 2
+    expect_same = flag is True or cls in SINGLE_VALUED or (flag is None and cls in DEFAULT_REUSE)
+    same = R.close(R.of_point(g1), R.of_point(g2), TOL)
+    if expect_same and not same:
+        probs.append(("flag:%s:new-gradient-although-declared-single-valued" % cls,
+                      "%s(reuse_gradient=%s): two queries (%s) at one point returned two different images" % (cls, flag, route)))
+    if not expect_same and same:
+        probs.append(("flag:%s:same-subgradient-although-declared-multi-valued" % cls,
+                      "%s(reuse_gradient=%s): the second query (%s) at one point cannot return another subgradient" % (cls, flag, route)))
+    if v1 is not None and not R.close(R.of_expression(v1), R.of_expression(v2), TOL):
+        probs.append(("flag:%s:two-values" % cls, "%s(reuse_gradient=%s): two values at one point (%s)" % (cls, flag, route)))
+    return probs, "flag:%s" % ("same" if same else "new")
+
+
+FLAG_CASES = None
+
+
+def flag_cases():
+    from mc import models
+    return [(cls, flag, route) for cls in models.CLASS_NAMES for flag in (True, False, None) for route in ("gradient", "oracle", "copy", "sum")]
+
+
 OPS_CORE = ["oracle", "gradient", "value", "call", "stat", "fixed", "prox"]
 OPS_MIN = ["oracle", "stat", "prox"]
 POINTS_MIN = ["x0", "cancel", "last"]
@@ -242,7 +311,7 @@ def _bounds(tier):
 
 
 def shards(tier):
-    out = []
+    out = [dict(kind="flags")]
     for aname, ops, depth in _bounds(tier):
         for shape in SHAPES:
             n = len(alphabet(shape, ops))
@@ -252,6 +321,19 @@ def shards(tier):
 
 
 def run_shard(shard, tier):
+    if shard.get("kind") == "flags":
+        ev, outcomes, viol = 0, {}, []
+        for cls, flag, route in flag_cases():
+            try:
+                probs, label = judge_flag(cls, flag, route)
+            except Exception as e:
+                probs, label = [("flag:%s:raised:%s" % (cls, type(e).__name__), "%s(reuse_gradient=%s), %s: %s" % (cls, flag, route, str(e)[:120]))], "raised"
+            ev += 1
+            outcomes[label] = outcomes.get(label, 0) + 1
+            for k, m in probs:
+                viol.append(dict(key=k, msg=m, case=dict(kind="flag", cls=cls, flag=flag, route=route)))
+        return dict(evaluations=ev, states=ev, transitions=2 * ev, nontrivial=ev, outcomes=outcomes, violations=viol,
+                    samples=[dict(kind="flag", cls="MonotoneOperator", flag=True, route="oracle")], extra={})
     ops = {"full": OPS_FULL, "reduced": OPS_RED, "core": OPS_CORE, "minimal": OPS_MIN}[shard["alphabet"]]
     shape = shard["shape"]
     alpha = alphabet(shape, ops)
@@ -282,6 +364,9 @@ def run_shard(shard, tier):
 
 
 def replay(case):
+    if case.get("kind") == "flag":
+        probs, _ = judge_flag(case["cls"], case["flag"], case["route"])
+        return [dict(key=k, msg=m, case=case) for k, m in probs]
     probs, label, canon = judge(case["shape"], [tuple(o) for o in case["history"]])
     return [dict(key=k, msg=m, case=case) for k, m in (probs or [])]
 
@@ -289,11 +374,13 @@ def replay(case):
 def meta(tier):
     return dict(
         rule="all call histories up to the depth bound over {oracle, gradient, value, __call__, stationary_point, "
-             "fixed_point, proximal_step, exact_linesearch_step, inexact_proximal_step, epsilon_subgradient_step} x {terms, sum} x {x0, x1, a second object with x0's decomposition, x1 - (x1 - x0), a "
-             "combination, the point created by the latest stationary_point/fixed_point/proximal_step} on 9 composite "
+             "fixed_point, proximal_step, exact_linesearch_step, inexact_proximal_step, epsilon_subgradient_step, bregman_proximal_step (mirror map = the sum)} x {terms, sum} x {x0, x1, a second object with x0's decomposition, x1 - (x1 - x0), a "
+             "combination, the same combination with its leaves introduced in the other order, the point created by the latest stationary_point/fixed_point/proximal_step} on 9 composite "
              "shapes (sum, weighted, zero weight, cancelling weight, nested, 3*(f/3), two differentiable, two "
              "non-differentiable, three terms); each history is replayed on a fresh PEP and judged by invariants I1-I6. "
-             "states = distinct canonical sample tables (per shard); non-trivial = the sum has at least one sample.",
+             "states = distinct canonical sample tables (per shard); non-trivial = the sum has at least one sample.  Plus, for "
+             "each of the 24 classes x reuse_gradient in {True, False, default} x {gradient twice, oracle twice, a second object "
+             "with the same decomposition, through 2*f}: single-valued exactly when declared (or single-valued by definition).",
         bounds={"alphabets": [dict(name=a, ops=o, depth=d) for a, o, d in _bounds(tier)], "shapes": SHAPES},
         exhaustive=True,
         assumptions=["user-declared contradictory triplets (add_point with a second value for the same point) are "
